@@ -356,7 +356,12 @@ def allowed_lines(doc, ledger, nodes, info):
     if where == "within":
         return set(range(led["line"], led["end_line"] + 1)), False, "lines %d-%d of the command" % (led["line"], led["end_line"])
     if where == "exec":
-        return set(range(led["line"], led["end_line"] + 1)), True, "none or lines %d-%d" % (led["line"], led["end_line"])
+        # a command that finds its own settings inconsistent (lengths, thresholds, directions, weights) validates
+        # parameters: that error carries a line of the command; other execute-time failures may carry none
+        settings = (doc.get("fault") or {}).get("kind") in ("exec-direction", "exec-weights", "exec-thresholds", "exec-k",
+                                                             "exec-dupraw", "exec-lengths")
+        return set(range(led["line"], led["end_line"] + 1)), not settings, "%slines %d-%d" % (
+            "" if settings else "none or ", led["line"], led["end_line"])
     name = where.split(":", 1)[1]
     a = led["args"].get(name)
     if a is None:
